@@ -3803,6 +3803,31 @@ static void op_opts(void)
   ares_destroy_options(&o);
 }
 
+/* effcfg: the configuration the channel works with right now, whatever its source (options,
+ * resolv.conf, /etc/nsswitch.conf, environment); ares_save_options only reports what was passed
+ * as an option.  Read under the channel lock from the channel itself. */
+static void op_effcfg(void)
+{
+  sb_t   sb;
+  size_t i;
+  sb_init(&sb);
+  ares_channel_lock(G.channel);
+  sb_printf(&sb, "EFFCFG lookups=");
+  sb_safe(&sb, G.channel->lookups != NULL ? G.channel->lookups : "-");
+  sb_printf(&sb, " ndots=%u tries=%u timeout=%u nsort=%u domains=[", (unsigned)G.channel->ndots,
+            (unsigned)G.channel->tries, (unsigned)G.channel->timeout, (unsigned)G.channel->nsort);
+  for (i = 0; i < G.channel->ndomains; i++) {
+    if (i) {
+      sb_putc(&sb, ',');
+    }
+    sb_safe(&sb, G.channel->domains[i]);
+  }
+  sb_puts(&sb, "]");
+  ares_channel_unlock(G.channel);
+  ev_sb(&sb);
+  sb_free(&sb);
+}
+
 /* ------------------------------------------------------------------------- */
 /* Files written by a case (config key writefile=<path>:<hex>, op writefile)    */
 /* ------------------------------------------------------------------------- */
@@ -3907,7 +3932,7 @@ static int needs_channel(const char *op)
   static const char *ops[] = { "cancel",  "destroy",  "reinit",  "setservers",
                                "setsortlist", "tmo",   "proc",    "proct",
                                "procfd",  "procsel",  "flushwrites", "fds", "run", "runw",
-                               "getsock", "qlen",     "servers", "opts",
+                               "getsock", "qlen",     "servers", "opts", "effcfg",
                                "setlocalip4", "setlocalip6", "setlocaldev",
                                "setserversl", "setserversp", "setserverscsv",
                                "getservers", "dup",
@@ -4271,6 +4296,8 @@ static void exec_op(const char *optext, int in_cb)
     ares_free_string(csv);
   } else if (strcmp(op, "opts") == 0) {
     op_opts();
+  } else if (strcmp(op, "effcfg") == 0) {
+    op_effcfg();
   } else {
     ev("BADOP unknown: %s", optext);
   }
@@ -4292,6 +4319,7 @@ typedef struct {
   long        udpport, tcpport, sndbuf, rcvbuf;
   const char *domains;
   const char *lookups;
+  const char *sysconf; /* comma list of "lookups","domains": left to the system configuration */
   long        rotate;
   int         have_failover;
   long        fo_chance, fo_delay;
@@ -4450,6 +4478,7 @@ static void parse_config(char *cfgtext, cfg_t *c)
     STRKEY("csv", csv)
     STRKEY("domains", domains)
     STRKEY("lookups", lookups)
+    STRKEY("sysconf", sysconf)
     STRKEY("sortlist", sortlist)
     STRKEY("hosts", hosts)
     STRKEY("resolvconf", resolvconf)
@@ -4678,6 +4707,16 @@ static void init_channel(const cfg_t *c)
   mask            |= ARES_OPT_DOMAINS;
   o.lookups        = (char *)c->lookups;
   mask            |= ARES_OPT_LOOKUPS;
+  /* sysconf=lookups,domains: these come from the resolv.conf named by resolvconf= (lookup / search
+   * lines) instead, at ares_init_options and again at every ares_reinit */
+  if (c->sysconf != NULL) {
+    if (strstr(c->sysconf, "lookups") != NULL) {
+      mask &= ~ARES_OPT_LOOKUPS;
+    }
+    if (strstr(c->sysconf, "domains") != NULL) {
+      mask &= ~ARES_OPT_DOMAINS;
+    }
+  }
   o.resolvconf_path = (char *)c->resolvconf;
   mask            |= ARES_OPT_RESOLVCONF;
   o.hosts_path     = (char *)c->hosts;
